@@ -275,6 +275,9 @@ func attrValue(id string) string {
 	if id == "textcss" {
 		return "text/css"
 	}
+	if id == "xjs" {
+		return "x.js"
+	}
 	if v, ok := templang.ConstDecoded[id]; ok {
 		return v
 	}
@@ -304,7 +307,15 @@ func expand(toks []templang.Tok) []templang.Tok {
 		}
 		if t.T == "raw" {
 			el := templang.RawElement(t.N)
-			out = append(out, templang.Tok{T: "open", N: el, G: t.G}, templang.Tok{T: "rawtext", N: t.N, G: "mustnot"}, templang.Tok{T: "close", N: el, G: "mustnot"})
+			var attrs []templang.TokAttr
+			if t.N == "scriptcls" {
+				attrs = []templang.TokAttr{{N: "class", V: "K12"}, {N: "src", V: "xjs"}}
+			}
+			out = append(out, templang.Tok{T: "open", N: el, G: t.G, Attrs: attrs})
+			if templang.RawRendered(t.N) != "" {
+				out = append(out, templang.Tok{T: "rawtext", N: t.N, G: "mustnot"})
+			}
+			out = append(out, templang.Tok{T: "close", N: el, G: "mustnot"})
 			continue
 		}
 		out = append(out, t)
